@@ -8,15 +8,147 @@ pub fn decode(payload: &[u8]) -> Option<Vec<u8>> {
 }
 
 pub fn encode(data: &[u8]) -> Vec<u8> {
-    let len = octets::huffman_encoding_len::<false>(data).expect("huffman len");
-    let mut buf = vec![0u8; len];
-    {
+    // longest code is 30 bits: 4 bytes per symbol is always enough
+    let mut buf = vec![0u8; data.len() * 4 + 8];
+    let off = {
         let mut o = octets::OctetsMut::with_slice(&mut buf);
         o.put_huffman_encoded::<false>(data).expect("huffman encode");
-    }
+        o.off()
+    };
+    buf.truncate(off);
     buf
 }
 
 pub fn encoded_len(data: &[u8]) -> usize {
-    octets::huffman_encoding_len::<false>(data).expect("huffman len")
+    encode(data).len()
+}
+
+// ---------------------------------------------------------------------------------------------
+// Bit-level view, derived from the octets *encoder* at run time (never from h3): the code of
+// every symbol, and a greedy classifier telling *why* a payload is invalid.
+
+#[derive(Default)]
+pub struct BitWriter {
+    pub out: Vec<u8>,
+    pub nbits: u32,
+}
+impl BitWriter {
+    pub fn put(&mut self, bits: u32, len: u32) {
+        for i in (0..len).rev() {
+            let bit = ((bits >> i) & 1) as u8;
+            if self.nbits % 8 == 0 {
+                self.out.push(0);
+            }
+            let last = self.out.len() - 1;
+            self.out[last] |= bit << (7 - self.nbits % 8);
+            self.nbits += 1;
+        }
+    }
+    pub fn finish_ones(mut self) -> Vec<u8> {
+        while self.nbits % 8 != 0 {
+            self.put(1, 1);
+        }
+        self.out
+    }
+}
+
+fn derive_code(sym: u8) -> (u32, u32) {
+    let one = encode(&[sym]);
+    let two = encode(&[sym, sym]);
+    let total = one.len() as u32 * 8;
+    for l in 5..=30u32 {
+        if l > total || total - l >= 8 {
+            continue;
+        }
+        let mut bits = 0u32;
+        for i in 0..l {
+            let bit = (one[(i / 8) as usize] >> (7 - i % 8)) & 1;
+            bits = (bits << 1) | bit as u32;
+        }
+        let mut w = BitWriter::default();
+        w.put(bits, l);
+        if w.finish_ones() != one {
+            continue;
+        }
+        let mut w = BitWriter::default();
+        w.put(bits, l);
+        w.put(bits, l);
+        if w.finish_ones() == two {
+            return (bits, l);
+        }
+    }
+    panic!("cannot derive Huffman code of symbol {}", sym);
+}
+
+/// (code bits, length) for every symbol 0..=255.
+pub fn code_table() -> &'static [(u32, u32); 256] {
+    static T: std::sync::OnceLock<[(u32, u32); 256]> = std::sync::OnceLock::new();
+    T.get_or_init(|| {
+        let mut t = [(0u32, 0u32); 256];
+        for (s, e) in t.iter_mut().enumerate() {
+            *e = derive_code(s as u8);
+        }
+        t
+    })
+}
+
+#[derive(Debug, Clone, PartialEq, Eq)]
+pub enum Validity {
+    Valid(Vec<u8>),
+    /// all-ones padding of 8..=29 bits
+    OverlongPadding(usize),
+    /// 30 consecutive ones at a symbol boundary: the EOS symbol; `at_end` when only one-bits
+    /// follow it up to the end of the payload
+    Eos { at_end: bool },
+    /// trailing bits that are not all ones (an incomplete code that is not an EOS prefix)
+    BadPadding,
+}
+
+pub fn classify(payload: &[u8]) -> Validity {
+    use std::collections::HashMap;
+    static MAP: std::sync::OnceLock<HashMap<(u32, u32), u8>> = std::sync::OnceLock::new();
+    let map = MAP.get_or_init(|| {
+        code_table()
+            .iter()
+            .enumerate()
+            .map(|(s, c)| (*c, s as u8))
+            .collect()
+    });
+    let nbits = payload.len() * 8;
+    let bit = |i: usize| (payload[i / 8] >> (7 - i % 8)) & 1;
+    let mut out = Vec::new();
+    let mut pos = 0usize;
+    loop {
+        // try to read one symbol from pos
+        let mut code = 0u32;
+        let mut len = 0u32;
+        let mut found = None;
+        while pos + (len as usize) < nbits && len < 30 {
+            code = (code << 1) | bit(pos + len as usize) as u32;
+            len += 1;
+            if let Some(s) = map.get(&(code, len)) {
+                found = Some(*s);
+                break;
+            }
+        }
+        match found {
+            Some(s) => {
+                out.push(s);
+                pos += len as usize;
+            }
+            None => {
+                let rest = nbits - pos;
+                let all_ones = (pos..nbits).all(|i| bit(i) == 1);
+                return if len == 30 && code == 0x3fff_ffff {
+                    Validity::Eos { at_end: all_ones }
+                } else if !all_ones {
+                    Validity::BadPadding
+                } else if rest <= 7 {
+                    Validity::Valid(out)
+                } else {
+                    Validity::OverlongPadding(rest)
+                };
+            }
+        }
+    }
 }
